@@ -267,5 +267,8 @@ def run(ctx) -> None:
     validators(ctx)
     who_may_raise(ctx)
     operand_checks(ctx)
+    from . import C08
+
+    C08.r_eqhash(ctx)  # kind and schema equality are what "compatible kinds" / "equal schemas" are decided with
     r_attr(ctx, tenv)
     shared.argname_scope(ctx, ('forml.io.dsl._struct',), floor=2)
